@@ -92,8 +92,11 @@ def build_corpus(run, rng, nmods, ntypes, nvals, tier, opts=("-fcompound-names",
     for c, d in zip(cases, mo):
         c["der"] = d
     cases = [c for c in cases if c["der"] != "NONE"]
-    rcm, mo, me = run_lines(model, ["berdec %s %s" % (c["ts"], c["der"]) for c in cases], timeout=1200)
-    for c, d in zip(cases, mo):
+    # (only SET OF changes under DER; the reference decoder is quadratic in the number of TLVs, so it is
+    # not run on the other, possibly very long, values)
+    need = [c for c in cases if "t" in c["ts"]]
+    rcm, mo, me = run_lines(model, ["berdec %s %s" % (c["ts"], c["der"]) for c in need], timeout=1200)
+    for c, d in zip(need, mo):
         f = d.split()
         if f[0] != "OK" or int(f[1]) * 2 != len(c["der"]):
             raise RuntimeError("model does not decode its own DER: %s %s -> %s" % (c["ts"], c["vs"], d))
